@@ -215,17 +215,22 @@ Print Assumptions C15_step_sequential.
    message to p whose every record (a, u) is not p's own, has lookup answer u, and is the record of
    a provider that was in the view when c took its provider snapshot (so never a bidder-only
    record); or -- only if p is a provider whose own lookup succeeded -- exactly [p's record], sent
-   to a bidder that was in the view when c took its bidder snapshot. *)
+   to a bidder that was in the view when c took its bidder snapshot.  The snapshot steps are pinned:
+   the SReadProviders c (SReadBidders c) step named is the one executed with the call at stage 0
+   (stage 2), i.e. the effective read -- a repeated read step is a no-op and does not qualify. *)
 Theorem C15_step_sound : forall l c t recs, In (Announce t recs) (call_effects c l) ->
   exists p lk ann l1 l2, l = l1 ++ SAdd c p lk ann :: l2 /\
   ( (t = p /\ recs <> [] /\
      forall a u, In (a, u) recs ->
        a <> p_addr p /\ tbl_get lk (mkPeer a ROLE_PROVIDER) = Some u /\
        exists pre post, l = pre ++ SReadProviders c :: post
+                        /\ (exists k0, find_call c (calls (srun pre)) = Some k0 /\ k_pc k0 = 0)
                         /\ In (mkPeer a ROLE_PROVIDER) (get_peers ROLE_PROVIDER (base (srun pre))))
     \/
     (p_role p = ROLE_PROVIDER /\ exists u, tbl_get lk p = Some u /\ recs = [(p_addr p, u)] /\
-     exists pre post, l = pre ++ SReadBidders c :: post /\ In t (get_peers ROLE_BIDDER (base (srun pre)))) ).
+     exists pre post, l = pre ++ SReadBidders c :: post
+                      /\ (exists k0, find_call c (calls (srun pre)) = Some k0 /\ k_pc k0 = 2)
+                      /\ In t (get_peers ROLE_BIDDER (base (srun pre)))) ).
 Proof. exact step_sound. Qed.
 Print Assumptions C15_step_sound.
 
@@ -249,6 +254,49 @@ Proof.
          (fun b u Hb Hn Hr Hlk => no_loss_bidders l1 c p lk ann l2 b u Hf Hb Hn Hr Hlk Hd)).
 Qed.
 Print Assumptions C15_step_no_loss.
+
+(* ---- event level versus system level: the late add ----------------------------------------------
+   C15_view is a statement about the events the Topology receives.  It is NOT the system-level claim
+   "the reported view holds only peers the p2p layer still has": for a peer learned through gossip
+   the worker's AddPeers comes after Service.Connect returned, unordered with the disconnect
+   notification of the same connection.  Joint machine (proofs/Topology_proofs.v: yevent, yrun):
+   registry = set of registered peers, YConnectReturns / YWorkerAdds / YClosed. *)
+
+(* Refuted on the code as it is: a history after which the view reports a provider (GetPeers,
+   IsConnected, hence the bid fan-out and the gossip skip) that the registry has forgotten; the
+   topology received Disconnected(B) before ConnectDone/AddPeers(B). *)
+Theorem C15_late_add_refuted :
+  exists ys, let s := yrun ys in
+    In (mkPeer 2 ROLE_PROVIDER) (get_peers ROLE_PROVIDER (run (y_tev s))) /\ is_connected 2 (run (y_tev s)) = true
+    /\ peer_mem (mkPeer 2 ROLE_PROVIDER) (y_reg s) = false
+    /\ y_tev s = [Gossip (mkPeer 3 ROLE_BIDDER) true [(addr_bytes 2, bos "u2")]; Disconnected (mkPeer 2 ROLE_PROVIDER);
+                  ConnectDone (bos "u2") (Some (mkPeer 2 ROLE_PROVIDER))].
+Proof. exact late_add_refuted. Qed.
+Print Assumptions C15_late_add_refuted.
+
+(* What does hold on every history of that machine: the event-level characterisation. *)
+Theorem C15_late_add_event_level : forall ys a r, r = ROLE_PROVIDER \/ r = ROLE_BIDDER ->
+  (In (mkPeer a r) (get_peers r (run (y_tev (yrun ys)))) <-> live a r (y_tev (yrun ys))).
+Proof. exact late_add_event_level. Qed.
+Print Assumptions C15_late_add_event_level.
+
+(* ---- C05 o C15: the view is what the bid fan-out uses (proofs/Compose_view.v) --------------------
+   SendBid (model/PreconfBidder.v, C05_fanout) run on the topology's state after any history: one
+   stream attempt per provider reported by GetPeers(provider), addressed by its 20-byte address, in
+   that order, nobody else; and those providers are exactly the live ones of the history, each
+   once.  (Subject to the limit above: "live" is about the events the topology received.) *)
+From MevVerif Require model.PreconfBidder proofs.PreconfBidder_proofs proofs.Compose_view.
+Theorem C15_fanout_uses_view : forall tr o a script evs D r,
+  PreconfBidder.send_bid_op tr o a (Compose_view.node_view script (run evs)) D = PreconfBidder.XRun r ->
+  Forall2 (fun q ct => fst ct = addr_bytes (p_addr q)
+                       /\ snd ct = if PreconfBidder_proofs.opens_stream_op tr D (Compose_view.lift PreconfBidder.TProvider script q)
+                                   then [PreconfBidder.xr_sent r] else [])
+          (get_peers ROLE_PROVIDER (run evs)) (PreconfBidder.xr_contacted r)
+  /\ (forall a0, In (mkPeer a0 ROLE_PROVIDER) (get_peers ROLE_PROVIDER (run evs)) <-> live a0 ROLE_PROVIDER evs)
+  /\ (forall q, In q (get_peers ROLE_PROVIDER (run evs)) -> p_role q = ROLE_PROVIDER)
+  /\ NoDup (map p_addr (get_peers ROLE_PROVIDER (run evs))).
+Proof. exact Compose_view.fanout_uses_view. Qed.
+Print Assumptions C15_fanout_uses_view.
 
 (* ---- composition with C14 (proofs/Compose_topology.v) -----------------------------------------------------------
    Above, Notifier.Connected / Disconnected and the results of the discovery worker's Connect calls are free
